@@ -56,6 +56,10 @@ def gen_case(rng, tier, index):
                                   "s-1"]),
             "m": rng.choice([2, 2, 3, 4]), "r": rng.randrange(0, 5),
             "batch": rng.choice([0, 2, 3, 4, 32]),
+            # two repeating streams of one dataset alive at once, advanced
+            # alternately (train / validation of one training loop)
+            "two_streams": rng.random() < 0.35,
+            "pattern": rng.getrandbits(30),
             "seed": rng.getrandbits(32), "sched_seed": rng.getrandbits(48),
             "policy": rng.choice(S.POLICIES),
             "policy_param": rng.randrange(0, 4)}
@@ -97,6 +101,80 @@ def run_case(case):
         random.seed(case["seed"])
         ds = env.open()
         one_pass = [i for i, _ in dsgen.read_sync(ds, split, st["attrs"])]
+        if case.get("two_streams") and iface in ("rust", "sync") and \
+                len(splits) >= 1:
+            other = splits[1] if len(splits) > 1 else split
+            oids = env.model.ids(other)
+            oone = [i for i, _ in dsgen.read_sync(ds, other, st["attrs"])]
+            want_o = case["m"] * len(oids) + 1
+
+            def child():
+                a = iter(eread.make_iter(ds, iface, split, opts))
+                b = iter(eread.make_iter(ds, iface, other, dict(
+                    opts, fp=max(1, fp - 1))))
+                ga, gb = [], []
+                step = 0
+                while len(ga) < want or len(gb) < want_o:
+                    pick_a = ((case["pattern"] >> (step % 30)) & 1) == 0
+                    step += 1
+                    if len(ga) >= want:
+                        pick_a = False
+                    elif len(gb) >= want_o:
+                        pick_a = True
+                    if pick_a:
+                        ga.append(dsgen.canon(next(a), st["attrs"])[0])
+                    else:
+                        gb.append(dsgen.canon(next(b), st["attrs"])[0])
+                a.close()
+                b.close()
+                return ga, gb
+
+            with env.fs.suspended():
+                status, val = (eread.forked(child, 60.0) if iface == "rust"
+                               else ("ok", child()))
+            probes["two_repeating_streams_interleaved"] += 1
+            probes["iface_" + iface] += 1
+            bad = None
+            if status == "hang":
+                bad = ("stream_stalls", "no result within 60 s (observed by "
+                       "watchdog)")
+            elif status != "ok":
+                bad = ("two_streams_fail", str(val)[:300])
+            else:
+                for name, got_s, ids_s, one_s in (
+                        (split, val[0], ids, one_pass),
+                        (other, val[1], oids, oone)):
+                    n_s = len(ids_s)
+                    if [i for i in got_s if i not in set(ids_s)]:
+                        bad = ("foreign_or_corrupted_example",
+                               f"stream of {name} yields examples of another "
+                               f"split: {got_s[:12]}")
+                    elif sh == 0 and got_s != [one_s[j % n_s]
+                                               for j in range(len(got_s))]:
+                        bad = ("not_periodic", f"stream of {name}: "
+                               f"{got_s[:12]}")
+                    elif iface == "rust" and any(
+                            sorted(got_s[e * n_s:(e + 1) * n_s]) != sorted(
+                                ids_s)
+                            for e in range(len(got_s) // n_s)):
+                        bad = ("epoch_not_a_permutation",
+                               f"stream of {name}: {got_s[:12]}")
+                    if bad:
+                        break
+            if bad:
+                out.update(ok=False, vclass=bad[0],
+                           detail=f"two interleaved repeating {iface} "
+                           f"streams ({split}, {other}) N={N} shuffle={sh} "
+                           f"fp={fp}: {bad[1]}",
+                           key={"engine": "E-read", "iface": iface})
+            out.update({"digest": hashlib.sha1(repr(val).encode()
+                                               ).hexdigest(),
+                        "nontrivial": nshards >= 2, "stats": dict(stats),
+                        "probes": dict(probes),
+                        "sample": {"iface": iface, "two_streams": True,
+                                   "opts": opts}})
+            out.setdefault("key", {"engine": "E-read", "iface": iface})
+            return out
         rr = eread.run_reader(env, ds, iface, split, opts, k=want,
                               seed=case["sched_seed"], policy=case["policy"],
                               policy_param=case["policy_param"],
@@ -181,7 +259,8 @@ def reach(agg):
     p = agg["probes"]
     for name in ("iface_sync", "iface_conc", "iface_async", "unshuffled",
                  "parallelism_above_shard_count",
-                 "parallelism_not_multiple_of_shards"):
+                 "parallelism_not_multiple_of_shards",
+                 "two_repeating_streams_interleaved"):
         if not p.get(name):
             need.append(f"probe {name} never hit")
     if bootstrap.RUST_SOURCE not in ("none", "stub") and not p.get(
